@@ -68,8 +68,16 @@ func (r *Run) Check(cond bool, rule, key, pos, how, msg string) {
 	}
 }
 
-// Floor declares the minimum instance count of a rule (vacuity guard).
-func (r *Run) Floor(rule string, n int) { r.Floors[rule] = n }
+// Floor declares the vacuity guard of a rule. n is the instance count confirmed by hand on the reviewed tree;
+// the rule must still match at least half of that (and at least one instance): a rule that silently stops
+// matching is caught, while a refactoring that merges a few duplicated sites is not an alarm.
+func (r *Run) Floor(rule string, n int) {
+	f := n / 2
+	if f < 1 {
+		f = 1
+	}
+	r.Floors[rule] = f
+}
 
 func (r *Run) Note(format string, args ...any) {
 	r.Notes = append(r.Notes, fmt.Sprintf(format, args...))
